@@ -262,6 +262,23 @@ class DynamicConstantProvider(DelegatingConstantProvider):
             self.add_value(value)
             self.add_value(self.STRING_FUNCTION_LOOKUP[name](value))
 
+    def add_value_for_concatenation(self, first: str | bytes, second: str | bytes):
+        """Entry point for the instrumented code. Add the concatenation of two values.
+
+        Used for `startswith` and `endswith`: the concatenation of the argument and the
+        receiver is a value for which the call holds. The values are only observed, i.e.,
+        nothing is concatenated unless both are strings or both are bytes.
+
+        Args:
+            first: The first value
+            second: The second value
+        """
+        # Might be proxies.
+        first = unwrap(first)
+        second = unwrap(second)
+        if type(first) is type(second) and type(first) in {str, bytes}:
+            self.add_value(first + second)
+
 
 def _find_modules_with_constants(project_path: str | os.PathLike) -> OrderedSet[str]:
     modules: OrderedSet[str] = OrderedSet()
